@@ -51,6 +51,10 @@ def post_case(draw, heavy=False):
       # a subclass that asks for a larger queue, and more events waiting than the shipped size
       case["bigq"] = 600
       case["heavy"] = draw(st.sampled_from([501, 540]))
+  if heavy and draw(st.integers(0, 3)) == 0:
+    # a state that empties the object's own queue (chart.queue.clear()) while the posters post:
+    # what it removes is gone, whatever arrives next to it is either removed or dispatched
+    case["clears"] = sorted(set(draw(st.lists(st.integers(0, 6), min_size=1, max_size=3))))
   # live spy/trace output switched on (not with a pre-filled queue: hundreds of steps of output)
   case["live"] = draw(st.integers(0, 2)) == 0 and not case["heavy"]
   return case
@@ -70,6 +74,7 @@ def run_post_case(case, step_limit=400000):
   signals.append("VA")
   VA = signals["VA"]
   handler_plan = dict((int(k), v) for k, v in case["handler"].items())
+  clears = set(case.get("clears") or ())
   count = [0]
 
   def body(s):
@@ -81,6 +86,8 @@ def run_post_case(case, step_limit=400000):
     def on_dispatch(c, e):
       k = count[0]
       count[0] += 1
+      if k in clears:
+        c.queue.clear()
       kind = handler_plan.get(k)
       if kind:
         nid = 1000 + k
